@@ -58,7 +58,7 @@ func derFixedPoint(x *mon.Ctx) {
 			c.End()
 		}
 	}
-	n := x.Scale(3000, 40000)
+	n := x.Scale(30000, 300000)
 	for i := 0; i < n; i++ {
 		c := x.Begin("DER fixed point: generated tree #%d", i)
 		if c == nil {
@@ -115,7 +115,7 @@ func checkFixed(c *mon.Case, obj []byte) {
 // constructed OCTET STRINGs) of honest messages normalise to something that parses to the same content.
 func berVariants(x *mon.Ctx) {
 	w := setup(x)
-	n := x.Scale(120, 1500)
+	n := x.Scale(1200, 12000)
 	for i := 0; i < n; i++ {
 		kind := []string{"signed", "signed", "enveloped", "psk"}[i%4]
 		form := []string{"all-indefinite", "random-forms", "long-form-lengths", "constructed-octet-string"}[(i/4)%4]
